@@ -131,12 +131,17 @@ func (server *Server) serveConn(conn net.Conn) {
 	} else {
 		ctx, done := context.WithCancel(context.Background())
 		verifhook.At("proxyserver.h1.send", conn)
-		server.http1ConnChannelListener.SendToChannel(&hack.TLSClientHelloConn{
+		if err := server.http1ConnChannelListener.SendToChannel(&hack.TLSClientHelloConn{
 			Done:              done,
 			Conn:              tlsConn,
 			ClientHelloRecord: rec,
-		})
-		verifhook.At("proxyserver.h1.sent", conn)
+		}); err != nil {
+			// the HTTP/1.1 server is shutting down, nobody will serve this connection
+			server.vlogf("http/1.1 server is closed, dropping connection (%s): %s", conn.RemoteAddr(), err)
+			done()
+		} else {
+			verifhook.At("proxyserver.h1.sent", conn)
+		}
 		// wait for the connection to be served by HTTP/1.1 server
 		<-ctx.Done()
 		verifhook.At("proxyserver.h1.done", conn)
